@@ -264,6 +264,16 @@ func c03ImplStore(c lib.Case, cfg c03Cfg) []string {
 	return out
 }
 
+// c03Key hands the subject key to the store in ONE buffer that every call of a case overwrites: the store's API takes a
+// []byte and owns nothing of it after the call returns, so an implementation that keeps the caller's slice (a "last key"
+// cache, say) answers the next key from the previous key's group (seeded C05-9).
+var c03KB []byte
+
+func c03Key(k []byte) []byte {
+	c03KB = append(c03KB[:0], k...)
+	return c03KB
+}
+
 func c03StoreOp(op string, outp *[]string, store *operator.KeyedStateStore, db *dkv.DB, ks *partitioning.KeySpace,
 	timers *operator.TimerStore, rot *c03Rot, mid *atomic.Pointer[dkv.DB], get func([]byte) string) {
 	out := *outp
@@ -277,16 +287,16 @@ func c03StoreOp(op string, outp *[]string, store *operator.KeyedStateStore, db *
 				out = append(out, "bad-op")
 				continue
 			}
-			if err := store.ApplyMutations(lib.UnHex(f[1]), c03ToPB(nss)); err != nil {
+			if err := store.ApplyMutations(c03Key(lib.UnHex(f[1])), c03ToPB(nss)); err != nil {
 				out = append(out, "error "+err.Error())
 				continue
 			}
 			out = append(out, "ok")
 		case f[0] == "get" && len(f) == 2:
-			out = append(out, get(lib.UnHex(f[1])))
+			out = append(out, get(c03Key(lib.UnHex(f[1]))))
 		case f[0] == "getmid" && len(f) == 2:
 			mid.Store(db)
-			out = append(out, get(lib.UnHex(f[1])))
+			out = append(out, get(c03Key(lib.UnHex(f[1]))))
 			mid.Store(nil)
 		case (f[0] == "tput" || f[0] == "tdel") && len(f) == 3:
 			t, _ := strconv.ParseInt(f[2], 10, 64)
